@@ -150,6 +150,8 @@ type runner struct {
 	restarts int
 	created  map[int]int // per series index: memSeries created through appenders so far
 	dupRefs  bool        // some label set has had two refs
+	lastWalk string
+	haveWalk bool
 }
 
 type walkT struct {
@@ -229,18 +231,13 @@ func gSer(s *tsdb.VerifC52Series, snap int) string {
 		hc = append(hc, s.Head[i].MaxTime)
 	}
 	k, st, nb := serLast(s)
-	// last sample decoded from the newest in-order chunk (None when there is no in-order chunk)
-	cl := "None"
-	if n := len(s.Head); n > 0 && s.Head[n-1].N > 0 {
-		c := s.Head[n-1]
-		cl = "(Some " + gLast(c.LastKind, c.LastStale, c.LastBuckets) + ")"
-	} else if n := len(s.Mmapped); len(s.Head) == 0 && n > 0 && s.Mmapped[n-1].N > 0 {
-		c := s.Mmapped[n-1]
-		cl = "(Some " + gLast(c.LastKind, c.LastStale, c.LastBuckets) + ")"
+	last, ss := gLast(k, st, nb), gLast(b2i(s.SSHist), s.SSStale, s.SSBuckets)
+	if !s.OOOStruct && s.OOOMmapped == 0 && !s.OOOHead && snap == 0 && int(s.HeadChunkCount) == len(hc) && last == ss {
+		return fmt.Sprintf("W %s %s %s %s %s", gi(int64(s.Ref)), gl(mm), gl(hc), last, gallina.Bool(s.PendingCommit))
 	}
-	return fmt.Sprintf("mkW %s %s %s %s %s %s %s %s %s %s %s %s", gi(int64(s.Ref)), gl(mm), gl(hc), gi(int64(s.OOOMmapped)),
-		gopt(s.OOOHead, int64(s.OOOHeadN)), gallina.Bool(s.OOOStruct), gLast(k, st, nb), gallina.Bool(s.PendingCommit), gi(int64(snap)),
-		gi(int64(s.HeadChunkCount)), gLast(b2i(s.SSHist), s.SSStale, s.SSBuckets), cl)
+	return fmt.Sprintf("mkW %s %s %s %s %s %s %s %s %s %s %s", gi(int64(s.Ref)), gl(mm), gl(hc), gi(int64(s.OOOMmapped)),
+		gopt(s.OOOHead, int64(s.OOOHeadN)), gallina.Bool(s.OOOStruct), last, gallina.Bool(s.PendingCommit), gi(int64(snap)),
+		gi(int64(s.HeadChunkCount)), ss)
 }
 
 func b2i(b bool) int {
@@ -255,7 +252,7 @@ func gWalk(w walkT, snap map[uint64]int) string {
 	for i := range w.ser {
 		it[i] = gSer(&w.ser[i], snap[w.ser[i].Ref])
 	}
-	return "[" + strings.Join(it, ";\n      ") + "]"
+	return "[" + strings.Join(it, "; ") + "]"
 }
 
 func f2i(f float64) int64 {
@@ -267,8 +264,21 @@ func f2i(f float64) int64 {
 
 func (r *runner) gObs(w walkT) string {
 	c := w.c
-	return fmt.Sprintf("mkO %s %s %s %s %s %s %s %s\n     %s", gs(int64(c.NumSeries)), gs(int64(c.NumStale)), gs(int64(c.NumHistSeries)),
-		gs(int64(c.NumHistBuckets)), gs(f2i(c.Chunks)), gs(f2i(c.ActiveAppenders)), gi(int64(len(r.apps))), gi(int64(w.byHash)), gWalk(w, nil))
+	walk := gWalk(w, nil)
+	ws := "(Some " + walk + ")"
+	if r.haveWalk && walk == r.lastWalk {
+		ws = "None"
+	}
+	r.lastWalk, r.haveWalk = walk, true
+	v := []int64{int64(c.NumSeries), int64(c.NumStale), int64(c.NumHistSeries), int64(c.NumHistBuckets), f2i(c.Chunks), f2i(c.ActiveAppenders)}
+	neg := false
+	for _, x := range v {
+		neg = neg || x < 0
+	}
+	if !neg {
+		return fmt.Sprintf("K %d %d %d %d %d %d %d %d %s", v[0], v[1], v[2], v[3], v[4], v[5], len(r.apps), w.byHash, ws)
+	}
+	return fmt.Sprintf("mkO %s %s %s %s %s %s %s %s %s", gs(v[0]), gs(v[1]), gs(v[2]), gs(v[3]), gs(v[4]), gs(v[5]), gi(int64(len(r.apps))), gi(int64(w.byHash)), ws)
 }
 
 // Go-side evaluation of the property (for class statistics and shape tagging only; the verdict is Coq's).
@@ -764,6 +774,7 @@ func (r *runner) doRestart(o hop) {
 	o.Op = "restart" + note
 	r.trace(o, "RRestart", after, bad)
 	r.descs = append(r.descs, o)
+	r.lastWalk, r.haveWalk = gWalk(after, nil), true
 	r.steps = append(r.steps, fmt.Sprintf("(RRestart %s %s,\n    %s)", gWalk(after, snap), gs(extra), r.gObs(after)))
 	r.classes["op:restart"+note]++
 }
@@ -1046,7 +1057,7 @@ func main() {
 			SamplesPerChunk: gen.Pick(g, []int{4, 4, 8, 120}),
 			Snapshot:        g.Chance(1, 3)}
 		hist := g.Chance(2, 3)
-		nsteps := 6 + g.Intn(25)
+		nsteps := 5 + g.Intn(18)
 		if fx != nil {
 			n, opt = fx.n, fx.opt
 			if opt.OOOCapMax == 0 {
@@ -1123,7 +1134,7 @@ func main() {
 		fmt.Println(o.cd.Shapes)
 		return
 	}
-	total := len(cp) + f.Count(60, 1500)
+	total := len(cp) + f.Count(40, 2500)
 	outs := make([]outcome, total)
 	var wg sync.WaitGroup
 	sem := make(chan struct{}, 8)
